@@ -259,6 +259,8 @@ class ParentTranslator:
             else:
                 return 'None'
         elif any(type(value) is t for t in literal_types):
+            if type(value) is float and repr(value) in ("inf", "-inf", "nan"):
+                return "float('%r')" % value    # No literal for these
             return pprint.pformat(value)
         elif (isinstance(value, types.ModuleType)
               and value in sys.modules.values()):
